@@ -509,7 +509,7 @@ struct World {
 		in.latest = Req{};
 		s.rounds.push_back(r);
 		s.roundOpen = true;
-		if (s.rounds.size() > 64) stopCase = true;
+		if (s.rounds.size() > (cfg::L + 8 > 64 ? cfg::L + 8 : 64)) stopCase = true;
 	}
 
 	void guardOutsideProcessing(Inst& in, Method m, uint8_t sid) {
@@ -539,7 +539,7 @@ struct World {
 				in.latest = Req{};
 				s.rounds.push_back(r);
 				s.roundOpen = true;
-				if (s.rounds.size() > 64) stopCase = true;
+				if (s.rounds.size() > (cfg::L + 8 > 64 ? cfg::L + 8 : 64)) stopCase = true;
 			}
 			Round& r = s.rounds.back();
 			if (sid == ROOT) r.rootSeen = true;
@@ -581,10 +581,18 @@ struct World {
 		if (!in.latest.valid) return;
 		const unsigned limit = isActivationOp(s.op) ? 1 + cfg::L : cfg::L;
 		if (s.rounds.size() >= limit) { s.limitLeftOver = true; flags |= F_LEFTOVER | F_LIMIT; stats.add("limit_leftovers"); return; }
-		if (s.survivor.valid && in.latest.dest == s.survivor.dest) { in.latest = Req{}; stats.add("absorbed_requests"); return; }
-		const std::string msg = fmt("request %s was neither evaluated by guards nor left over at the limit (rounds=%zu, limit=%u, survivor %s); %s",
+		// a request that repeats the accepted transition exactly (same requester, destination, payload presence)
+		// is absorbed by design (the test-suite relies on it); anything else must get its own guard round
+		if (s.survivor.valid && in.latest.dest == s.survivor.dest && in.latest.origin == s.survivor.origin && in.latest.hasPay == s.survivor.hasPay) {
+			in.latest = Req{}; stats.add("absorbed_requests"); return;
+		}
+		const bool sameDest = s.survivor.valid && in.latest.dest == s.survivor.dest;
+		const std::string msg = fmt("request %s was neither evaluated by guards nor left over at the limit (rounds=%zu, limit=%u, accepted so far %s); %s",
 									in.latest.str().c_str(), s.rounds.size(), limit, s.survivor.str().c_str(), tail().c_str());
-		V("C02", "request-dropped-unevaluated", msg);
+		const std::string key = fmt("request-dropped-unevaluated|%s", sameDest ? (in.latest.origin != s.survivor.origin ? "same-destination-other-requester" : "same-destination-payload-added-or-dropped") : "other-destination");
+		V("C02", key, msg);
+		V("C03", key, msg);
+		if (in.latest.hasPay) V("C07", key, msg);
 		in.latest = Req{};
 	}
 
